@@ -194,15 +194,19 @@ def family(run):
     if not run.thorough:
         extra = list(coro.programs(3))
         run.rng.shuffle(extra)
-        cprogs += extra[:150]
+        cprogs += extra[:40]
         extra = list(seqbody.programs(3))
         run.rng.shuffle(extra)
-        sprogs += extra[:100]
+        sprogs += extra[:30]
     for fi in range(len(FLAVOURS)):
         if fi >= 4:
-            # step_cond flavours: size-1/2 programs only
-            cp = [p for p in cprogs if len(repr(p)) < 60]
-            sp = [p for p in sprogs if len(repr(p)) < 40]
+            # step_cond / with_params flavours: size-1 programs + every 6th size-2 program (thorough: all of size <= 2)
+            cp = [p for p in cprogs if len(p) == 1 and not isinstance(p[0][-1], tuple)] + \
+                 [p for k, p in enumerate(cprogs) if len(repr(p)) < 60 and (run.thorough or k % 6 == 0)]
+            sp = [p for p in sprogs if len(p) == 1 and len(repr(p)) < 22] + \
+                 [p for k, p in enumerate(sprogs) if len(repr(p)) < 40 and (run.thorough or k % 6 == 0)]
+            cp = list(dict.fromkeys(cp))
+            sp = list(dict.fromkeys(sp))
             for p in cp:
                 yield ("coro", p, fi, (len(repr(p)) + fi) % 2 == 0)
             for p in sp:
